@@ -53,6 +53,19 @@ def gen(rng, simname, force_str=False):
     case = tune(simcases.gen_case(rng, simname, buggify=False), rng)
     case["seam"] = {"mode": "real"}
     case["seed"] = rng.getrandbits(31)
+    if force_str and simcases.SIMS[simname][2] and case.get("I0") is not None and len(case["graph"]["nodes"]) >= 3 \
+            and rng.random() < 0.3:
+        # (cross-interpreter family only: there just the output digests of the same call are compared.
+        # When the random index case happens to be an initially recovered node the unchanged code is in
+        # an inconsistent state of its own making - outside every property - so the in-process clauses
+        # are not judged on this input.)
+        # no initial_infecteds, no rho: one random index case; most of the population initially recovered
+        n = len(case["graph"]["nodes"])
+        idx = list(range(n))
+        rng.shuffle(idx)
+        case["I0"] = None
+        case["rho"] = None
+        case["R0"] = idx[:max(1, (n // 2) + 1)]
     if case.get("infl_kind") == "set":
         # a user-side set of string labels iterates in hash order: that is the user's nondeterminism,
         # not EoN's - the harness hands over ordered collections in this check
